@@ -491,6 +491,10 @@ func (t *test) Test10(ctx context.Context, c orgvarlinkcertification.VarlinkCall
 		return c.ReplyCertificationError(ctx, nil, nil)
 	}
 
+	if mytype_.Interface.Foo == nil {
+		return c.ReplyCertificationError(ctx, nil, nil)
+	}
+
 	i := *mytype_.Interface.Foo
 	if len(i) != 4 {
 		return c.ReplyCertificationError(ctx, nil, nil)
@@ -500,7 +504,7 @@ func (t *test) Test10(ctx context.Context, c orgvarlinkcertification.VarlinkCall
 		return c.ReplyCertificationError(ctx, nil, nil)
 	}
 
-	if len(*i[1]) != 2 {
+	if i[1] == nil || len(*i[1]) != 2 {
 		return c.ReplyCertificationError(ctx, nil, nil)
 	}
 
@@ -516,7 +520,7 @@ func (t *test) Test10(ctx context.Context, c orgvarlinkcertification.VarlinkCall
 		return c.ReplyCertificationError(ctx, nil, nil)
 	}
 
-	if len(*i[3]) != 2 {
+	if i[3] == nil || len(*i[3]) != 2 {
 		return c.ReplyCertificationError(ctx, nil, nil)
 	}
 
